@@ -28,11 +28,13 @@ pub struct GameRecord {
     pub decoyed: bool,
     /// valid_actions() was asked before valid_actions_no_rep() at every state (instead of after)
     pub rep_first: bool,
+    /// play states asked valid_actions() only (driver::OFFERED_ONLY)
+    pub offered_only: bool,
 }
 
 impl GameRecord {
     pub fn new(family: &str, seed: u64, index: u64, start: Start) -> GameRecord {
-        GameRecord { family: family.to_string(), seed, index, start, actions: vec![], level_tree: None, decoyed: false, rep_first: false }
+        GameRecord { family: family.to_string(), seed, index, start, actions: vec![], level_tree: None, decoyed: false, rep_first: false, offered_only: false }
     }
     pub fn actions_text(&self) -> Vec<String> {
         self.actions.iter().map(|c| code_text(*c)).collect()
@@ -63,6 +65,7 @@ impl GameRecord {
             "level_tree": self.level_tree.map(|(at, d)| json!({"root_after_actions": at, "depth": d})),
             "decoyed": self.decoyed,
             "rep_first": self.rep_first,
+            "offered_only": self.offered_only,
         })
     }
     pub fn from_json(v: &Value) -> Option<GameRecord> {
@@ -79,6 +82,7 @@ impl GameRecord {
             actions,
             decoyed: v.get("decoyed").and_then(|x| x.as_bool()).unwrap_or(false),
             rep_first: v.get("rep_first").and_then(|x| x.as_bool()).unwrap_or(false),
+            offered_only: v.get("offered_only").and_then(|x| x.as_bool()).unwrap_or(false),
             level_tree: v.get("level_tree").and_then(|t| Some((t.get("root_after_actions")?.as_u64()? as usize, t.get("depth")?.as_u64()? as u32))),
         })
     }
